@@ -46,10 +46,10 @@ def check_result(ctx, res, exp_samples, region, case, what):
     return True
 
 
-def sample_slice(ctx, region, samples, a, b, case_base):
-    case = dict(case_base, view="samples", a=a, b=b)
+def sample_slice(ctx, region, samples, a, b, case_base, dress=0):
+    case = dict(case_base, view="samples", a=a, b=b, bound_types=dress)
     try:
-        res = region[a:b]
+        res = region[_dress(a, dress) : _dress(b, dress)]
     except Exception as exc:
         ctx.case(repr(case), True)
         ctx.violation("sample-slice-raises:" + type(exc).__name__, {"case": case, "exception": repr(exc)[:200]})
@@ -76,11 +76,47 @@ def stop_candidates(x, rate):
     return c
 
 
-def time_slice(ctx, region, samples, a, b, case_base, view):
+class _MyInt(int):
+    """an int subclass is an int"""
+
+
+class _MyFloat(float):
+    """a float subclass is a float"""
+
+
+def _dress(x, how):
+    """the same bound value as another legal type (subclasses of int/float, numpy.float64, enum.IntEnum)"""
+    import enum
+
+    import numpy as np
+
+    if x is None or how == 0:
+        return x
+    if isinstance(x, bool):
+        return x
+    if isinstance(x, int):
+        if how == 1:
+            return _MyInt(x)
+        if how == 2 and -1000 < x < 1000:
+            return enum.IntEnum("B", {"v": x}).v
+        return x
+    if isinstance(x, float):
+        if how == 1:
+            return np.float64(x)
+        if how == 2:
+            return _MyFloat(x)
+    return x
+
+
+def time_slice(ctx, region, samples, a, b, case_base, view, via_temporary=False, dress=0):
     rate = region.sampling_rate
-    case = dict(case_base, view=view, a=a, b=b)
+    case = dict(case_base, view=view, a=a, b=b, via_temporary=via_temporary, bound_types=dress)
     try:
-        res = (region.seconds if view == "seconds" else region.millis)[a:b]
+        if via_temporary:
+            # the view of a region nobody else holds: region[...].seconds[...]
+            res = (region[0:None].seconds if view == "seconds" else (region + region[0:0]).millis)[_dress(a, dress) : _dress(b, dress)]
+        else:
+            res = (region.seconds if view == "seconds" else region.millis)[_dress(a, dress) : _dress(b, dress)]
     except Exception as exc:
         ctx.case(repr(case), True)
         ctx.violation(view + "-slice-raises:" + type(exc).__name__, {"case": case, "exception": repr(exc)[:200]})
@@ -102,7 +138,8 @@ def time_slice(ctx, region, samples, a, b, case_base, view):
         check_result(ctx, res, exp, region, case, view + "-slice")
         return
     # independent sanity: each bound within one sample period of the requested instant
-    if abs(start - Fraction(ta) * rate) >= 1 or any(s is not None and abs(s - Fraction(tb) * rate) > 1 for s in stops[:1]):
+    small = abs(ta * rate) < 2 ** 50 and (tb is None or abs(tb * rate) < 2 ** 50)  # beyond that one ulp of the product exceeds a sample
+    if small and (abs(start - Fraction(ta) * rate) >= 1 or any(s is not None and abs(s - Fraction(tb) * rate) > 1 for s in stops[:1])):
         ctx.violation(view + "-bound-more-than-one-sample-from-instant", {"case": case})
     if view == "millis":
         # millis view == seconds view at t/1000
@@ -180,16 +217,20 @@ def run_shard(ctx):
         def tb():
             d = n / rate
             return rng.choice((None, 0, 0.0, d, -d, d / 2, rng.uniform(-1.2 * d - 1e-3, 1.2 * d + 1e-3), rng.randint(-n - 1, n + 1) / rate,
-                               (rng.randint(0, n) + 0.5) / rate, -(rng.randint(0, n) + 0.5) / rate, 1e9, -1e9, int(d) + 1))
+                               (rng.randint(0, n) + 0.5) / rate, -(rng.randint(0, n) + 0.5) / rate, 1e9, -1e9, int(d) + 1, 10 ** 400, -(10 ** 400), 2 ** 1024))
 
         def mb():
             d = int(1000 * n / rate)
-            return rng.choice((None, 0, 1, -1, d, -d, d + 1, rng.randint(-d - 3, d + 3), 10 ** 9))
+            # (no 10**400 here: the millisecond view is defined through t/1000 in seconds, which has no float value that far out;
+            #  the unchanged code raises OverflowError there - noted in DESIGN.md, not generated)
+            return rng.choice((None, 0, 1, -1, d, -d, d + 1, rng.randint(-d - 3, d + 3), 10 ** 9, 10 ** 300, -(10 ** 300)))
 
-        for _ in range(3):
-            sample_slice(ctx, region, samples, ib(), ib(), base)
-            time_slice(ctx, region, samples, tb(), tb(), base, "seconds")
-            time_slice(ctx, region, samples, mb(), mb(), base, "millis")
+        for k_ in range(3):
+            sample_slice(ctx, region, samples, ib(), ib(), base, dress=rng.choice((0, 0, 1, 2)))
+            time_slice(ctx, region, samples, tb(), tb(), base, "seconds", via_temporary=(k_ == 1), dress=rng.choice((0, 0, 1, 2)))
+            time_slice(ctx, region, samples, mb(), mb(), base, "millis", via_temporary=(k_ == 2), dress=rng.choice((0, 0, 1, 2)))
+            if k_ == 0:
+                ctx.count("slices_through_a_temporary_region", 2)
         if (i & 63) == 0 and ctx.out_of_time():
             break
 
@@ -210,7 +251,7 @@ def replay(ctx, case):
 def inconclusive(merged, tier):
     c = merged["counters"]
     need = ["sample_slices", "sample_slices_negative_bound", "seconds_slices", "millis_slices", "millis_vs_seconds_compared",
-            "type_error_cases", "exhaustive_sample_slices"]
+            "type_error_cases", "exhaustive_sample_slices", "slices_through_a_temporary_region"]
     return [f"monitor never observed {k}" for k in need if c.get(k, 0) == 0]
 
 
